@@ -61,7 +61,9 @@ func (ctx *Ctx) cloop(node *node, tpl *Tpl, w io.Writer) {
 
 		// Write separator.
 		if c > 0 && len(node.loopSep) > 0 {
-			_, _ = w.Write(node.loopSep)
+			if _, ctx.Err = w.Write(node.loopSep); ctx.Err != nil {
+				return
+			}
 		}
 		c++
 		// Loop over child nodes with square brackets check in paths.
@@ -80,6 +82,11 @@ func (ctx *Ctx) cloop(node *node, tpl *Tpl, w io.Writer) {
 			}
 			if err == ErrBreakLoop || err == ErrContLoop {
 				break
+			}
+			if err != nil && err != ErrLBreakLoop {
+				ctx.chQB = prevQB
+				ctx.Err = err
+				return
 			}
 		}
 		ctx.chQB = prevQB
